@@ -362,8 +362,8 @@ impl ManagePatches for PatchManager {
         // If a patch was never booted (next_boot_patch != last_booted_patch), we should delete
         // it here before setting next_boot_patch to the new patch.
         if let (Some(last_boot_patch), Some(next_boot_patch)) = (
-            self.patches_state.next_boot_patch.clone(),
             self.patches_state.last_booted_patch.clone(),
+            self.patches_state.next_boot_patch.clone(),
         ) {
             if last_boot_patch.number != next_boot_patch.number {
                 shorebird_info!(
